@@ -499,9 +499,13 @@ def Spec.labelMatches : CaseLabel → Value R → Bool
   | .str s, .str v => s == v
   | _, _ => false
 
+def isStrLabel : CaseLabel → Bool
+  | .str _ => true
+  | _ => false
+
 /-- reference meaning of a switch: the first arm (in source order) whose label matches, else `default` -/
 def Spec.switchFind (labels : List CaseLabel) (v : Value R) : Res (Option Nat) :=
-  let isStr := labels.any (fun l => match l with | .str _ => true | _ => false)
+  let isStr := labels.any isStrLabel
   match v with
   | .int _ | .str _ =>
     if (match v with | .str _ => !isStr | .int n => isStr && n != 0 | _ => false) then .err
